@@ -21,18 +21,46 @@ def claim(pid, technique, text, note, ref):
 
 TRUSTED = " Trusted base: CPython ast; call resolution by lexical scope/MRO/class-hierarchy analysis; library calls have their documented semantics."
 
-claim(
-    "C01",
-    "dataflow threading + orientation-parity + field-completeness rules over the AST/CFG",
-    "Static analysis (not a proof of the behaviour): decides structural necessary conditions on every path of the anchored functions — state threaded linearly through both simulators in program order with native segments routed by the simulator's own predicate; to_unitary multiplies with odd orientation parity; concatenation keeps max width and left-first order; every circuit-from-circuit construction carries the width; non-gate operations refused; numeric/symbolic embedding paths get identical arguments; _lift_matrix block order and permutation inversion parity. Breaking any of these breaks the property for some circuit.",
-    "Declined (not statically decidable here): entry-by-entry equality of the Kronecker/permutation embedding with the textbook operator, MultiPhaseOperation's exp(i theta), numeric vs symbolic value agreement." + TRUSTED,
-    "DESIGN.md §3 C01",
-)
+TECHNIQUE = {
+    "C01": "dataflow threading + orientation-parity + field-completeness rules over AST/CFG",
+    "C02": "gate-table extraction, literal-matrix shape/self-adjointness normal forms, exponential-polynomial normal form of the literal matrices, numpy-scalar taint",
+    "C03": "exhaustive table evaluation against the Pauli algebra, operand-order dataflow, linear-form evaluation of the dunder methods, effect analysis",
+    "C04": "orientation-parity analysis of every bit-order conversion path, sibling-branch agreement",
+    "C05": "writer/reader JSON record schema extraction (required vs conditional keys), dispatch exhaustiveness, constructor-slot agreement, iterator-reuse lint",
+    "C06": "CFG all-paths-raise, per-class bind dataflow, registry-arm checks, dataclasses.replace/__init__ signature lint, field completeness",
+    "C07": "field-completeness of modifier re-association, delegation and matrix-idiom rules, hidden-state lint",
+    "C08": "orientation parity, abstract evaluation of the index shift over orderings, width field-completeness, effect analysis, loop-source provenance",
+    "C09": "linear-form evaluation of the index map, sibling-branch agreement, CFG guard dominance, empty-accumulator lint",
+    "C10": "set-operation idiom recognition, branch-wise linear forms of the denominator, guard dominance, effect analysis",
+    "C11": "writer/reader JSON record schema extraction for all artefacts, loader-interface sibling rule, printer-token vs parser-regex inclusion",
+    "C12": "CFG dominance of the normalisation check, rollback typestate on the rejecting path, who-writes analysis of the amplitude field, schema",
+    "C13": "CFG guard dominance, aggregate idioms, chunk-size agreement, effect analysis of shared result objects",
+    "C14": "CFG dominance with abstract (sign-domain) evaluation of guards, reachability from counter writes to rejection points, counter-write discipline, tracker return/record provenance",
+    "C15": "partition provenance of index/value lists, allocation length, per-task field provenance, hidden-state lint",
+    "C16": "two-sidedness lint on the tolerance guard with CFG dominance, polynomial normal forms of time arguments/shift/factors, palindromic composition structure",
+    "C17": "CFG edge-dominance of stores by the validity test, interprocedural effect analysis, syntactic symmetry under argument swap, marginal-structure rules, schema",
+    "C18": "rule-chaining dataflow, width field-completeness, PHASE: emitted gate list vs matrix-factory product, production ordering parity",
+    "C19": "CFG refusal points, emitted-name vs dialect-table agreement with arity classes, predicate/consumer position agreement, registry coverage",
+    "C20": "interprocedural alias + mutation (effect) analysis to a fixpoint over the whole package; frozen-dataclass and copy-on-construct rules",
+}
+
+
+def load_claims():
+    for pid, tech in TECHNIQUE.items():
+        path = os.path.join(VERIF, "sa", "props", pid.lower() + ".py")
+        if not os.path.exists(path):
+            continue
+        mod = importlib.import_module(f"sa.props.{pid.lower()}")
+        note = "Declined / assumed: " + "; ".join(getattr(mod, "ASSUMPTIONS", [])) + "." + TRUSTED
+        text = "Static analysis of /repo's source (no execution). Decides necessary conditions of the property on every path of the anchored code, not the behaviour itself: " + mod.EXPLANATION
+        claim(pid, tech, text, note, f"DESIGN.md section 3 {pid}")
+
 
 NOT_YET = "no check registered yet in this commit (machinery under construction; see DESIGN.md §3 for the planned rule)"
 
 
 def main():
+    load_claims()
     props = [json.loads(l) for l in open(os.path.join(VERIF, "properties.jsonl"))]
     checks = []
     na = []
